@@ -25,12 +25,38 @@ def gen_tables(wd):
     return json.load(open(os.path.join(wd, "PermTable", "perm.json"))), r
 
 
-def run_permdrv(inp, wd, tag):
+def expressible(sc):
+    """A configuration FILE maps path -> operations per client (keys are lower-cased by the configuration library): two entries with
+    the same path cannot both be written down.  Only such configurations are sent to the real binary."""
+    for cp in sc["world"].get("perms", []):
+        paths = [pe["path"].lower() for pe in cp["perms"]]
+        if len(paths) != len(set(paths)):
+            return False
+    return True
+
+
+def unexplained(out, index, lines):
+    """A trace whose runs against the real binary are judged by guards is rejected by not being consumable: the high-water mark says
+    where.  Returns (scenario id, trace line) when that place lies in a run against the binary, else None."""
+    import re as _re
+    m = _re.findall(r'"HIGHWATER", (\d+)', out)
+    if not m:
+        return None
+    pos = int(m[-1])
+    for a, b, sid in index:
+        if a <= pos <= b + 1 and sid.endswith("-bin"):
+            return sid, lines[pos - 1] if 0 < pos <= len(lines) else None
+    return None
+
+
+def run_permdrv(inp, wd, tag, dirk=None):
+    """dirk: path of the real dirk binary - the scenarios' permission entries then go into its configuration file and the operations
+    are sent to it over TLS with the client's certificate."""
     exe = build_harness("permdrv")
     f = os.path.join(wd, tag + ".in.json")
     o = os.path.join(wd, tag + ".out.ndjson")
     json.dump(inp, open(f, "w"))
-    p = subprocess.run([exe, "-scenarios", f, "-out", o], cwd=wd, env=dict(os.environ, TMPDIR=wd), stdout=subprocess.PIPE, stderr=subprocess.PIPE, text=True, timeout=1200)
+    p = subprocess.run([exe, "-scenarios", f, "-out", o] + (["-dirk", dirk] if dirk else []), cwd=wd, env=dict(os.environ, TMPDIR=wd), stdout=subprocess.PIPE, stderr=subprocess.PIPE, text=True, timeout=1200)
     evs = [json.loads(l) for l in open(o) if l.strip()] if os.path.exists(o) else []
     return evs, p.returncode, p.stderr
 
@@ -188,6 +214,15 @@ def run(prop, tier, seed):
         chunks = [scenarios[i::8] for i in range(8) if scenarios[i::8]]
         with ThreadPoolExecutor(max_workers=8) as ex:
             outs = list(ex.map(lambda a: run_permdrv(dict(check_cases=[], scenarios=a[1]), wd, "svc%d" % a[0]), enumerate(chunks)))
+        # the SHIPPED PROGRAM: some configurations go into the real dirk binary's configuration file (its own reading of the permission
+        # entries is part of what is exercised) and the same operations are sent to it over TLS with the client's certificate
+        bscs = [dict(s_, id=s_["id"] + "-bin") for s_ in [x for x in scenarios if expressible(x)][:6 if tier == "quick" else 48]]
+        for s_ in bscs:
+            cfgs[s_["id"]] = cfgs[s_["id"][:-4]]
+        bchunks = [bscs[i::6] for i in range(6) if bscs[i::6]]
+        with ThreadPoolExecutor(max_workers=6) as ex:
+            outs += list(ex.map(lambda a: run_permdrv(dict(check_cases=[], scenarios=a[1]), wd, "svcbin%d" % a[0], dirk=build_dirk()), enumerate(bchunks)))
+        scenarios = scenarios + bscs
         lines, index, nops, nserved = [], [], 0, 0
         for evs2, rc2, err2 in outs:
             if rc2 != 0:
@@ -197,7 +232,7 @@ def run(prop, tier, seed):
                 if e["ev"] == "Begin":
                     cur = e["sc"]
                     start = len(lines) + 1
-                    lines.append(dict(ev="Config", sc=cur, cfg=cfgs[cur]))
+                    lines.append(dict(ev="Config", sc=cur, cfg=cfgs[cur], unordered=cur.endswith("-bin")))
                 elif e["ev"] == "PermOp":
                     wallet, acct = e["wallet"], e["acct"]
                     if e["keyof"]:
@@ -236,6 +271,12 @@ def run(prop, tier, seed):
                 verdict.violation("%s:%s" % (r.violated, json.dumps(lines[pos - 2], sort_keys=True)[:200] if pos >= 2 else sid),
                                   "service level: %s violated by %s under configuration %s" % (r.violated, lines[pos - 2] if pos >= 2 else "?", cfgs.get(sid)),
                                   dict(kind="service", scenario=sc[0] if sc else None, cfg=cfgs.get(sid), op=lines[pos - 2] if pos >= 2 else None, invariant=r.violated))
+            elif r.violated == "postcondition" and unexplained(r.out, index, lines) is not None:
+                sid, ln = unexplained(r.out, index, lines)
+                sc = [s for s in scenarios if s["id"] == sid]
+                verdict.violation("ServedOnlyIfAllowed:noorder:%s" % json.dumps(ln, sort_keys=True)[:200],
+                                  "the dirk binary (%s): no order of the client's permission entries explains the run; it stops being explainable at %s under configuration %s" % (sid, ln, cfgs.get(sid)),
+                                  dict(kind="service", scenario=sc[0] if sc else None, cfg=cfgs.get(sid), op=ln, invariant="ServedOnlyIfAllowed"))
             else:
                 raise Inconclusive("PermTrace validation failed: %s %s" % (r.violated, r.error))
         # lock / unlock / create / sign sequences from LockState.tla (incl. restarts): a refused operation changes no lock state
@@ -248,7 +289,7 @@ def run(prop, tier, seed):
         cov = dict(states=info["states"], transitions=info["transitions"], traces_validated_against_impl=len(index) + len(cases), lock_state=lock,
                    samples=[dict(kind="checker-row", case=cases[0], expected=expect[cases[0]["id"]][0]), dict(kind="service-ops", lines=lines[:6])],
                    table_rows=dict(tables["counts"]), checker_rows_replayed=nrows, service_configurations=len(scenarios), service_operations=nops,
-                   service_operations_served=nserved, drift=drift[:10], drift_count=len(drift), exhaustive=True,
+                   service_operations_served=nserved, configurations_against_the_dirk_binary=len(bscs), drift=drift[:10], drift_count=len(drift), exhaustive=True,
                    checker_cmd="tlc PermTable / PermTrace; harness cmd/permdrv")
         write_evidence(prop, tier, seed, "model_checking", cov, time.time() - t0, violations=len(verdict.violations),
                        assumptions=["the intended meaning of each catalogue pattern (whole-name, case-insensitive match) is stated extensionally in spec/Perms.tla",
@@ -329,6 +370,13 @@ def run_c18(tier, seed):
         strip = lambda sc: dict(sc, ops=[{k: v for k, v in o.items() if k != "pids"} for o in sc["ops"]])
         with ThreadPoolExecutor(max_workers=8) as ex:
             outs = list(ex.map(lambda a: run_permdrv(dict(check_cases=[], scenarios=[strip(s_) for s_ in a[1]]), wd, "lst%d" % a[0]), enumerate(chunks)))
+        bscs = [dict(s_, id=s_["id"] + "-bin") for s_ in [x for x in scenarios if expressible(x)][:6 if tier == "quick" else 40]]
+        for s_ in bscs:
+            cfgs[s_["id"]] = cfgs[s_["id"][:-4]]
+        bchunks = [bscs[i::6] for i in range(6) if bscs[i::6]]
+        with ThreadPoolExecutor(max_workers=6) as ex:
+            outs += list(ex.map(lambda a: run_permdrv(dict(check_cases=[], scenarios=[strip(s_) for s_ in a[1]]), wd, "lstbin%d" % a[0], dirk=build_dirk()), enumerate(bchunks)))
+        scenarios = scenarios + bscs
         opmeta = {sc["id"]: {o["id"]: o for o in sc["ops"]} for sc in scenarios}
         lines, index, nlists, nreturned, ncreated = [], [], 0, 0, 0
         for evs2, rc2, err2 in outs:
@@ -340,13 +388,16 @@ def run_c18(tier, seed):
                     cur = e["sc"]
                     start = len(lines) + 1
                     pop = {w: list(a) for w, a in popnames.items()}
-                    lines.append(dict(ev="Config", sc=cur, cfg=cfgs[cur]))
+                    lines.append(dict(ev="Config", sc=cur, cfg=cfgs[cur], unordered=cur.endswith("-bin")))
                     lines.append(dict(ev="Population", pop={w: list(a) for w, a in pop.items()}))
                 elif e["ev"] == "PermOp" and e["kind"] == "create":
                     if e["served"]:
                         ncreated += 1
                         pop[e["wallet"]] = pop[e["wallet"]] + [e["acct"]]
                         lines.append(dict(ev="Population", pop={w: list(a) for w, a in pop.items()}))
+                elif e["ev"] == "PermOp" and e["kind"] == "restart" and cur.endswith("-bin"):
+                    # a new process of the binary: it builds its entry lists anew, possibly in another order
+                    lines.append(dict(ev="Config", sc=cur, cfg=cfgs[cur], unordered=True))
                 elif e["ev"] == "PermOp" and e["kind"] == "listpaths":
                     m = opmeta[cur][e["id"]]
                     res = []
@@ -384,12 +435,18 @@ def run_c18(tier, seed):
                 verdict.violation("%s:%s" % (r.violated, json.dumps(lines[pos - 2], sort_keys=True)[:200] if pos >= 2 else sid),
                                   "%s violated by list request %s under configuration %s (%s)" % (r.violated, lines[pos - 2] if pos >= 2 else "?", cfgs.get(sid), badset[-1][:200] if badset else ""),
                                   dict(kind="list", scenario=sc[0] if sc else None, cfg=cfgs.get(sid), popnames=popnames, request=lines[pos - 2] if pos >= 2 else None, invariant=r.violated))
+            elif r.violated == "postcondition" and unexplained(r.out, index, lines) is not None:
+                sid, ln = unexplained(r.out, index, lines)
+                sc = [s_ for s_ in scenarios if s_["id"] == sid]
+                verdict.violation("NoForbidden/Complete:noorder:%s" % json.dumps(ln, sort_keys=True)[:200],
+                                  "the dirk binary (%s): no order of the client's permission entries explains the listings; it stops being explainable at %s under configuration %s" % (sid, ln, cfgs.get(sid)),
+                                  dict(kind="list", scenario=sc[0] if sc else None, cfg=cfgs.get(sid), popnames=popnames, request=ln, invariant="NoForbidden"))
             else:
                 raise Inconclusive("ListTrace validation failed: %s %s" % (r.violated, r.error))
         rc = verdict.finish()
         cov = dict(states=info["states"], transitions=info["transitions"], traces_validated_against_impl=len(index),
                    samples=[dict(kind="list-trace", lines=lines[:5])], configurations=len(scenarios), list_requests=nlists, accounts_returned=nreturned,
-                   accounts_created_dynamically=ncreated, path_catalogue=PATHCAT, exhaustive=False, checker_cmd="tlc PermTable / ListTrace; harness cmd/permdrv")
+                   accounts_created_dynamically=ncreated, configurations_against_the_dirk_binary=len(bscs), path_catalogue=PATHCAT, exhaustive=False, checker_cmd="tlc PermTable / ListTrace; harness cmd/permdrv")
         write_evidence(prop, tier, seed, "model_checking", cov, time.time() - t0, violations=len(verdict.violations),
                        assumptions=["the intended whole-name matches of the path catalogue are stated in spec/ListTrace.tla",
                                     "dynamic creation = single-participant Generate through the account manager handler (distributed creation is exercised by C12)"])
@@ -412,12 +469,14 @@ def project_lists(evs, cfgs, opmeta, popnames, lines):
         if e["ev"] == "Begin":
             cur = e["sc"]
             pop = {w: list(a) for w, a in popnames.items()}
-            lines.append(dict(ev="Config", sc=cur, cfg=cfgs[cur]))
+            lines.append(dict(ev="Config", sc=cur, cfg=cfgs[cur], unordered=cur.endswith("-bin")))
             lines.append(dict(ev="Population", pop={w: list(a) for w, a in pop.items()}))
         elif e["ev"] == "PermOp" and e["kind"] == "create":
             if e["served"]:
                 pop[e["wallet"]] = pop[e["wallet"]] + [e["acct"]]
                 lines.append(dict(ev="Population", pop={w: list(a) for w, a in pop.items()}))
+        elif e["ev"] == "PermOp" and e["kind"] == "restart" and cur.endswith("-bin"):
+            lines.append(dict(ev="Config", sc=cur, cfg=cfgs[cur], unordered=True))
         elif e["ev"] == "PermOp" and e["kind"] == "listpaths":
             m = opmeta[cur][e["id"]]
             res = []
@@ -433,7 +492,7 @@ def project_service(evs, cfgs, lines):
     for e in evs:
         if e["ev"] == "Begin":
             cur = e["sc"]
-            lines.append(dict(ev="Config", sc=cur, cfg=cfgs[cur]))
+            lines.append(dict(ev="Config", sc=cur, cfg=cfgs[cur], unordered=cur.endswith("-bin")))
         elif e["ev"] == "PermOp" and e["kind"] in OPNAME:
             wallet, acct = e["wallet"], e["acct"]
             if e["keyof"]:
@@ -463,7 +522,7 @@ def _replay(prop, path):
             return 0
         sc = obj["scenario"]
         strip = lambda sc_: dict(sc_, ops=[{k: v for k, v in o.items() if k != "pids"} for o in sc_["ops"]])
-        evs, rc, err = run_permdrv(dict(check_cases=[], scenarios=[strip(sc)]), wd, "replay")
+        evs, rc, err = run_permdrv(dict(check_cases=[], scenarios=[strip(sc)]), wd, "replay", dirk=build_dirk() if str(sc.get("id", "")).endswith("-bin") else None)
         if rc != 0:
             print(err[-400:])
             return 2
@@ -485,7 +544,7 @@ def _replay(prop, path):
         if r.ok:
             print("replay: run accepted by %s (%s hold)" % (module, ", ".join(inv)))
             return 0
-        if r.violated in inv:
+        if r.violated in inv or (r.violated == "postcondition" and str(sc.get("id", "")).endswith("-bin")):
             print("VIOLATION property=%s replay=%s" % (prop, path))
             return 1
         print("replay: %s %s" % (r.violated, r.error))
